@@ -196,9 +196,13 @@ claim("C13",
       "mapping). valid_mapping is a boolean evaluated INSIDE Coq on every re-labelling the implementation performs; the model re-keys "
       "its own world with the implementation's published step and must arrive at the implementation's tables, initial views and "
       "step results on the re-labelled world (several consecutive resets, shipped and generated scenarios); monitors check that "
-      "the published maps compose and that goal sets, start positions and goal description follow. Partial: the equivariance of "
-      "`step` under an arbitrary injective re-labelling is not proved as a theorem; it is covered by the per-step correspondence on "
-      "the re-labelled world. One known finding (sampler fails for private networks in different RFC 1918 blocks).",
+      "the published maps compose and that goal sets, start positions and goal description follow. Equivariance (Proofs/Equivariance.v): C13_equivariant_step / "
+      "C13_equivariant_play - every one of the six actions, and by induction every action sequence, commutes with a re-labelling "
+      "that is one-to-one on the addresses and networks in play and keeps the members of a scanned network (re-keyed world, "
+      "translated view, translated actions give the re-keyed world and the translated view); C13_equivariant_ready states the "
+      "hypotheses as the boolean `equiv_ready`, which is evaluated inside Coq for the mapping current->original addresses before "
+      "every action the implementation executes on a re-labelled world (when action and view mention scenario objects only). "
+      "One known finding (sampler fails for private networks in different RFC 1918 blocks).",
       "Trusted: Coq kernel + VM; std++; Faker/random are an oracle (the published maps are checked, their distribution is not); "
       "hand-written Remap/World/Load models tied by differential execution; cyst stub.",
       "machine-checked proof in Rocq (Coq 8.16, std++) over a re-labelling model + in-Coq validity check of every observed re-labelling + model/code correspondence",
